@@ -394,10 +394,14 @@ def c18():
         builds=[_tab_build(), _sim_build()],
         runs=[_tab_run("allocpfx", 480, 9600), _tab_run("allocspki", 160, 3200),
               dict(name="allocsync", bin="rtrsim", config="asan", mode="allocsync", cases=T(3072, 18432), timeout=2400, chunks=64,
-                   remap_props={"C03": "C18", "C08:blocked": "C18"})],
-        floors={"c18/runs_with_injected_failure": T(15000, 300000), "c18/sync/runs_with_injected_failure": T(2800, 16000),
+                   remap_props={"C03": "C18", "C08:blocked": "C18"}),
+              dict(name="balance-defect", bin="rtrsim", config="asan", mode="defect", cases=T(2160, 21600), timeout=1500, chunks=32, args=["balance=1"]),
+              dict(name="balance-conv", bin="rtrsim", config="asan", mode="conv", cases=T(600, 12000), timeout=1500, chunks=32, args=["balance=1"]),
+              dict(name="balance-faults", bin="rtrsim", config="asan", mode="faults", cases=T(1024, 10240), timeout=1500, chunks=32, args=["balance=1"]),
+              dict(name="balance-stops", bin="rtrsim", config="asan", mode="stops", cases=T(600, 6000), timeout=1500, chunks=32, args=["balance=1"])],
+        floors={"c18/sync/leak_checks": T(4000, 40000), "c18/runs_with_injected_failure": T(15000, 300000), "c18/sync/runs_with_injected_failure": T(2800, 16000),
                 "c18/sync/table_probes_after_recovery": T(20000, 100000),
-                "c18/pfx/leak_checks": T(400, 8000), "c18/spki/leak_checks": T(100, 2000), "c18/sync/leak_checks": T(20, 300),
+                "c18/pfx/leak_checks": T(400, 8000), "c18/spki/leak_checks": T(100, 2000),
                 "c18/pfx/validate_hit_by_failure": T(500, 10000)},
         rule=("A counting / failing allocator is installed through the public lrtr_set_alloc_functions(); every block carries a header "
               "(magic, size, serial) so a block freed through libc free(), a foreign block, a double free and a leak are detected "
@@ -413,7 +417,11 @@ def c18():
               "its first reload (the shadow key table is built without touching a key). Recovery probe: whenever the client is "
               "ESTABLISHED after the injected failure, both tables must take and release a record. The application's own table "
               "initialisation is kept out of the enumeration (spki_table_init cannot report failure). A client thread blocked for good "
-              "after the failure counts for C18 here. The monitors' own lookups are neither counted nor failed. Distinct by (history, k)."),
+              "after the failure counts for C18 here. balance-*: the defect, conversation, transport-fault and stop scenarios of the "
+              "protocol engine (defective responses of every class at every position, Error Reports, faults, stops at every "
+              "cancellation point) run with the counting allocator installed and no failure injected: when the client has been stopped "
+              "and both tables freed, no block may be left and none may have been released past the allocator. "
+              "The monitors' own lookups are neither counted nor failed. Distinct by (history, k)."),
         assumptions=TAB_ASSUME + ["leaks on failure paths are outside the property (it speaks of failure-free runs)"],
     )
 
@@ -466,8 +474,10 @@ def c06():
         runs=[dict(name="reload", bin="conc", config="plain", mode="reload", cases=T(12, 160), args=["epochs=8", "records=1000", "readers=8"], chunks=12, timeout=1800),
               dict(name="reload-big", bin="conc", config="plain", mode="reload", cases=T(2, 24), args=["epochs=6", "records=1024", "readers=14"], chunks=2, timeout=1800),
               dict(name="reload-tsan", bin="conc", config="tsan", mode="reload", cases=T(3, 30), args=["epochs=4", "records=200", "readers=4"], chunks=3, timeout=1800, tsan=True)],
-        floors={"c06/observations_while_reload_in_flight": T(100000, 2000000), "c06/reloads_completed": T(100, 1500),
-                "c06/flip_query_observations": T(50000, 1000000), "c06/new_set_observations": T(10000, 200000),
+        # the observation counts depend on how many reads the reader threads get in while a reload is on its way, i.e. on the
+        # machine's load: the floors are a tenth of what an idle machine gives
+        floors={"c06/observations_while_reload_in_flight": T(30000, 300000), "c06/reloads_completed": T(100, 1500),
+                "c06/flip_query_observations": T(15000, 150000), "c06/new_set_observations": T(5000, 50000),
                 "c06/reloads_rejected_at_end_of_data_then_retried": T(3, 40)},
         rule=("The real FSM thread (rtr_start) synchronises with a scripted cache that has restarted with a new session id and the next "
               "of 5-9 pre-computed data sets (a common core + a random half of the remaining 1000 prefix records / 192 router keys) at "
@@ -602,7 +612,7 @@ def _c04_libfuzzer(bdir, res, tier, seed):
     with open(dictp, "w") as f:
         # 32-bit big-endian boundary values of length / serial fields, and (version, type) header pairs
         for v in (0, 1, 7, 8, 9, 12, 16, 20, 24, 32, 123, 3247, 3248, 3249, 65535, 65536, 0x7fffffff, 0x80000000,
-                  0xfffffff0, 0xfffffff8, 0xfffffffc, 0xffffffff):
+                  0xfffffff0, 0xfffffff8, 0xfffffffc, 0xffffffff, 0x00010008, 0x00010014, 0x00010018, 0x00010020, 0xffff0014):
             f.write('"%s"\n' % "".join("\\x%02x" % b for b in v.to_bytes(4, "big")))
         for ver in (0, 1, 2):
             for typ in (0, 1, 2, 3, 4, 6, 7, 8, 9, 10, 255):
@@ -681,7 +691,7 @@ def c04():
                 "sim/scenarios_with_responses_of_over_300_pdus_per_kind": T(10, 100)},
         rule=(SIM_RULE_COMMON + "fuzz: a structure-aware generator builds a well-formed answer (Cache Response, up to 24 prefix / router-key "
               "PDUs, optional Error Report, End of Data) and applies 0-3 mutations: length field from {0,1,7,8,9,12,20,24,32,3247,3248,3249, "
-              "65535,65536,2^31-1,2^31,2^32-1, correct+-4}, type, version, flags / prefix length / max length / zero byte from "
+              "65535,65536,2^31-1,2^31,2^32-1, 65536+{8,20,24,32}, correct+-4}, type, version, flags / prefix length / max length / zero byte from "
               "{0,1,2,31,32,33,127,128,129,254,255}, any payload byte, nested Error-Report lengths, session, duplicated PDU, truncation at "
               "any byte, random 32-bit fields; 8% of the streams are pure random bytes. The stream is the first answer on an empty socket "
               "(rtr_sync), the answer to a Serial Query after a genuine synchronisation, or arrives while the client idles "
